@@ -250,10 +250,10 @@ func c17MQTTTeardown(c *core.Ctx, clientsF *types.Var, brokerT *types.Named) {
 			f := flow.NewFunc(pkg, fd)
 			for _, call := range calls(fd.Body, false) {
 				if b, ok := f.Callee(call).(*types.Builtin); ok && b.Name() == "delete" && len(call.Args) == 2 && c17Field(f, call.Args[0]) == clientsF {
-					nSites++
 					// analysed from where the protecting lock is taken (delete moved into a helper
 					// called under the lock → its callers)
 					for _, root := range c17LockRoots(f, allFuncs, takesLock) {
+						nSites++
 						rfd, _ := root.Node.(*ast.FuncDecl)
 						c17MQTTDelete(c, root, declName(pkg, rfd), call, clientsF, brokerT)
 					}
@@ -333,6 +333,22 @@ func c17MQTTDelete(c *core.Ctx, f *flow.Func, decl string, del *ast.CallExpr, cl
 		lookups = append(lookups, l)
 		return true
 	})
+	// lookups made through an accessor helper (`c, ok := b.lookupClientLocked(id)`)
+	for _, d := range bind.derivedLookups(clientsF, delKey) {
+		l := &lookup{stmt: d.stmt, ev: "ev:c17:del-lookup-locked@" + f.Pos(d.stmt.Pos())}
+		if d.valID != nil {
+			if o := c17Obj(f, d.valID); o != nil && assignCount[o] == 1 {
+				l.val, l.valID = o, d.valID
+				l.closed = "ev:c17:registered-closed@" + f.Pos(d.stmt.Pos())
+			}
+		}
+		if d.okID != nil {
+			if o := c17Obj(f, d.okID); o != nil && assignCount[o] == 1 {
+				l.okKey = f.VarKey(d.okID)
+			}
+		}
+		lookups = append(lookups, l)
+	}
 	for _, l := range lookups {
 		if l.val == nil {
 			continue
@@ -698,6 +714,15 @@ func c17MQTTSiteIn(c *core.Ctx, pkg *packages.Package, f *flow.Func, cons string
 		}
 		return true
 	})
+	for _, d := range bind.derivedLookups(clientsF, insCanon) {
+		ev := "ev:c17:lookup-locked@" + f.Pos(d.stmt.Pos())
+		switch {
+		case d.okID != nil && single(c17Obj(f, d.okID)):
+			lookups = append(lookups, lookup{d.stmt, f.VarKey(d.okID), flow.True, ev})
+		case d.valID != nil && single(c17Obj(f, d.valID)):
+			lookups = append(lookups, lookup{d.stmt, f.NilKey(d.valID), flow.False, ev})
+		}
+	}
 
 	const (
 		evLocked   = "ev:c17:broker-write-locked"
